@@ -189,11 +189,18 @@ func (s *Sim) genClientOp() (Decision, bool) {
 		if d, ok := g(s, c); ok {
 			return d, true
 		}
+		if exclusiveClientGen[s.Cfg.Profile] {
+			return Decision{}, false
+		}
 	}
 	return s.genCoreClientOp(c)
 }
 
 var clientGens = map[string]func(s *Sim, c *Client) (Decision, bool){}
+
+// exclusiveClientGen: profiles whose client generator is not complemented by
+// the core one.
+var exclusiveClientGen = map[string]bool{}
 
 func cliReq(c *Client, method, params string) Decision {
 	return Decision{K: "cli", A: c.Name, P: mustJSON(cliOp{Op: "req", M: method, P: params})}
